@@ -222,18 +222,18 @@ Definition model_wires (transport : Z) (x : exchange) : list wire :=
 
 Definition s_User_Agent : str := [85;115;101;114;45;65;103;101;110;116].
 Definition s_Accept_Encoding : str := [65;99;99;101;112;116;45;69;110;99;111;100;105;110;103].
-Definition req_stack_skip (client_h : hdrs) (k : str) : bool :=
+Definition req_stack_skip (meth : str) (client_h : hdrs) (k : str) : bool :=
   str_eqb k s_Connection || str_eqb k s_Content_Length || str_eqb k s_Transfer_Encoding ||
   (str_eqb k s_User_Agent && negb (has_field s_User_Agent client_h)) ||
   (str_eqb k s_Accept_Encoding && negb (has_field s_Accept_Encoding client_h)) ||
-  existsb (str_eqb k) conditional_names.
+  (cache_answers meth && existsb (str_eqb k) conditional_names).   (* on a write the conditionals are compared like any field *)
 
 Definition up_matches (req : creq) (u : ureq) : bool :=
   match relay_request req with
   | None => false
   | Some q =>
       str_eqb (q_method q) (q_method u) && str_eqb (q_target q) (q_target u) && str_eqb (q_body q) (q_body u) &&
-      agree_except (req_stack_skip (c_hdrs req)) (q_hdrs q) (q_hdrs u)
+      agree_except (req_stack_skip (c_method req) (c_hdrs req)) (q_hdrs q) (q_hdrs u)
   end.
 
 Definition rc_mismatch (c : rcase) : bool :=
